@@ -38,10 +38,13 @@ class Scenario:
     max_attempts: int = 50
     fix_stamp: bool = True
     fix_etag: bool = False
-    fix_gc: bool = False
+    fix_gc: bool = True
+    fix_gcfail: bool = True
     fix_interrupt: bool = True
     grace: int = 0
     data_age_ms: int = 0       # > 0: data files are back-dated by this much when written
+    orphans: int = 0           # orphan data files + orphan manifests (old) present before the run
+    damage: Optional[Tuple[str, str]] = None   # (kind in {"list","man"}, how in {"missing","garbage"}) applied to a reachable file
 
     def idx(self, a: str) -> int:
         return [x.name for x in self.actors].index(a) + 1
@@ -83,6 +86,7 @@ class Execution:
             t0.append_records([{"id": 960 + j, "k": 0}])
         st = project.read_state(project.LocalReader(path))
         self._assign_init_ids(st)
+        self._make_orphans_and_damage(path, st)
         # one Table object per handle, created outside the scheduled part
         for a in self.scn.actors:
             h = a.handle or a.name
@@ -94,6 +98,26 @@ class Execution:
         self.path = path
         self.init_obs = self.observe()
         self.init_obs["clock"] = env.clock.rel(env.clock.peek_ms())
+
+    def _make_orphans_and_damage(self, path: str, st: Dict[str, Any]) -> None:
+        """Old orphan files (copies of real ones under fresh names) and optional damage to a reachable file."""
+        old = (self.env.clock.peek_ms() - 10_000_000) / 1000.0
+        if self.scn.orphans and st["data"] and st["manifests"]:
+            for k in range(self.scn.orphans):
+                for src, dst, fid in ((st["data"][0], f"data/orphan_{k}.parquet", 980 + k),
+                                      (sorted(st["manifests"])[0], f"metadata/manifests/manifest_orphan_{k}.avro", 990 + k)):
+                    shutil.copyfile(os.path.join(path, src), os.path.join(path, dst))
+                    os.utime(os.path.join(path, dst), (old, old))
+                    self.env.ids.file[dst] = fid
+        if self.scn.damage:
+            kind, how = self.scn.damage
+            target = sorted(st["lists"])[0] if kind == "list" else sorted(st["manifests"])[0]
+            full = os.path.join(path, target)
+            if how == "missing":
+                os.remove(full)
+            else:
+                with open(full, "wb") as f:
+                    f.write(b"\x00garbage-not-avro-not-json")
 
     def _assign_init_ids(self, st: Dict[str, Any]) -> None:
         ids = self.env.ids
@@ -127,12 +151,14 @@ class Execution:
         for p, ents in sorted(st["manifests"].items()):
             mans.append([ids.fid(p), [{"file": ids.fid(e["file"]), "status": "ADDED" if e["status"] == 1 else "EXISTING",
                                        "snap": ids.snap(e["snapshot_id"]), "seq": e["sequence_number"] or 0} for e in ents]])
-        present = sorted([ids.fid(p) for p in st["lists"]] + [ids.fid(p) for p in st["manifests"]] + [ids.fid(p) for p in st["data"]])
+        broken = [p for p in st["broken"] if p.startswith(("metadata/manifests/", "data/"))]      # exist, but cannot be parsed
+        present = sorted([ids.fid(p) for p in st["lists"]] + [ids.fid(p) for p in st["manifests"]] + [ids.fid(p) for p in st["data"]] + [ids.fid(p) for p in broken])
         markers = sorted(env.marker_fid(p) for p in st["markers"])
+        ftimes = [[ids.fid(p), env.clock.rel(int(round(rd.mtime(p) * 1000)))] for p in list(st["lists"]) + list(st["manifests"]) + list(st["data"]) + broken]
         h = st["hint"]
         hint = {"cls": "name" if h["cls"] in ("name", "legacy") else ("missing" if h["cls"] == "missing" else "garbage"),
                 "name": ids.name(h["name"]) if h["name"] else {"v": -1, "u": 0}}
-        return {"hint": hint, "metas": metas, "lists": lists, "mans": mans, "present": present, "markers": markers,
+        return {"hint": hint, "metas": metas, "lists": lists, "mans": mans, "present": present, "markers": markers, "ftime": ftimes,
                 "broken": sorted(st["broken"]), "temps": sorted(st["temps"])}
 
     # ---- actor programs --------------------------------------------------------------------------
@@ -216,6 +242,7 @@ class Execution:
                         if not ok:
                             res = "false"
                     elif t == "gc":
+                        env.gc_started = True
                         extra["stats"] = table.garbage_collect(grace_period_ms=int(op.get("grace", 3600000)))
                     elif t == "read":
                         api = op.get("api", "scan")
@@ -381,7 +408,7 @@ def scn_constants(scn: Scenario) -> Dict[str, Any]:
     return {"Actors": R("<- ScnActors"), "Role": R("<- ScnRole"), "Idx": R("<- ScnIdx"), "Handle": R("<- ScnHandle"),
             "Prog": R("<- ScnProg"), "Backend": scn.backend, "LockKind": scn.lock_kind, "ClockMode": scn.clock_mode,
             "MaxClock": 1000000, "MaxAttempts": scn.max_attempts, "InitSnaps": scn.init_snaps,
-            "FixStamp": scn.fix_stamp, "FixEtag": scn.fix_etag, "FixGCOrder": scn.fix_gc, "FixInterrupt": scn.fix_interrupt, "FaultKinds": set(), "FaultBudget": 0, "Grace": scn.grace, "OldFiles": False, "MarkerTimeout": 86400000}
+            "FixStamp": scn.fix_stamp, "FixEtag": scn.fix_etag, "FixGCOrder": scn.fix_gc, "FixGCFail": scn.fix_gcfail, "FixInterrupt": scn.fix_interrupt, "FaultKinds": set(), "FaultBudget": 0, "Grace": scn.grace, "OldFiles": False, "MarkerTimeout": 86400000}
 
 
 L1_INVARIANTS = ["TypeOK", "Serializable", "LinearChain", "AckedOnce", "NoDoubleCommit", "ReachablePresent",
@@ -412,7 +439,7 @@ def validate(scn: Scenario, traces: List[Dict[str, Any]], timeout_s: int = 900, 
     tf = os.path.join(wd, "traces.json")
     with open(tf, "w") as f:
         json.dump({"traces": [{"init": t["init"], "events": t["events"]} for t in traces]}, f)
-    cfg = tlc.make_cfg(spec="TraceSpec", constants=scn_constants(scn), constraints=["Progress"],
+    cfg = tlc.make_cfg(spec="TraceSpec", constants=dict(scn_constants(scn), TableDamaged=scn.damage is not None), constraints=["Progress"],
                        postcondition="Verdicts", check_deadlock=False)
     res = tlc.run_tlc("TraceScn", cfg, wd=wd, workers=1, timeout_s=timeout_s, env={"TRACE_FILE": tf},
                       label=f"Trace_L1[{scn.name}] x{len(traces)}", keep_wd=keep)
